@@ -101,7 +101,7 @@ def stream_doc(rng):
         lab = rng.choice(['', '', f', label: "S{rng.randrange(3)}"'])
         return f'@stream(initialCount: {rng.choice([0, 0, 1, 2])}{lab})'
     a, b = rng.sample(leafs, 2)
-    k = rng.choice([0, 1, 2, 2, 2, 3, 4, 5, 6, 6])
+    k = rng.choice([0, 1, 2, 2, 2, 3, 4, 5, 6, 6, 7, 7, 8])
     if k == 0:
         body = f'users {st()} {{ {a} {b} }}'
     elif k == 1:
@@ -110,6 +110,11 @@ def stream_doc(rng):
         body = f'users {st()} {{ {a} friends {st()} {{ {b} }} }}'
     elif k == 6:
         body = f'users {{ {a} ... @defer(label: "D") {{ friends {st()} {{ {b} }} }} }}'
+    elif k == 7:
+        # a stream created by a deferred fragment's executor whose items discover a @defer of their own
+        body = f'... @defer(label: "D") {{ users {st()} {{ {a} ... @defer(label: "I") {{ {b} }} }} }}'
+    elif k == 8:
+        body = f'me {{ id ... @defer(label: "D") {{ friends {st()} {{ {a} ... @defer(label: "I") {{ {b} best {{ {a} }} }} }} }} }}'
     elif k == 3:
         body = f'nnMe {{ tags {st()} roles {st()} {a} }}'
     elif k == 4:
